@@ -114,6 +114,27 @@ def rule_unsubscribe_leaves(ctx, R):
     ctx.ob(R, fi, fi.node, ok, f"unsubscribe(): maybe_leave_group() is {why if not ok else ''}: the member keeps heartbeating with partitions nobody consumes", text="unsubscribe-leaves-group")
 
 
+def call_keywords(ctx, fi, call):
+    """Keyword arguments of a call as {name: source text}; `**self.helper()` is opened up when the helper is a method of the same class whose
+    only return is a dict display with constant keys (the arguments gathered once for several call sites)."""
+    out = {}
+    for k in call.keywords:
+        if k.arg is not None:
+            out[k.arg] = unparse(k.value)
+            continue
+        v = k.value
+        if isinstance(v, ast.Call) and not v.args and not v.keywords and isinstance(v.func, ast.Attribute) and unparse(v.func.value) == "self" and fi.owner_cls is not None:
+            q = fi.qualname.rsplit(".", 1)[0] + "." + v.func.attr
+            h = ctx.repo.funcs.get(q)
+            if h is not None:
+                rets = [r for r in ast.walk(h.node) if isinstance(r, ast.Return)]
+                body = [b for b in h.node.body if not (isinstance(b, ast.Expr) and isinstance(b.value, ast.Constant))]
+                if len(rets) == 1 and len(body) == 1 and body[0] is rets[0] and isinstance(rets[0].value, ast.Dict) and all(isinstance(x, ast.Constant) and isinstance(x.value, str) for x in rets[0].value.keys):
+                    for kk, vv in zip(rets[0].value.keys, rets[0].value.values):
+                        out[kk.value] = unparse(vv)
+    return out
+
+
 def rule_credentials_verbatim(ctx, R):
     """The SASL user name and password reach the authenticator exactly as configured: stored from the constructor parameters unchanged and
     passed on unchanged (a normalised password is a different password)."""
@@ -128,7 +149,7 @@ def rule_credentials_verbatim(ctx, R):
     for q in ("aiokafka.client.AIOKafkaClient.bootstrap", "aiokafka.client.AIOKafkaClient._get_conn"):
         f2 = ctx.fn(q)
         for call in [x for x in ast.walk(f2.node) if isinstance(x, ast.Call) and (call_attr(x) == "create_conn" or unparse(x.func) == "create_conn")]:
-            kws = {k.arg: unparse(k.value) for k in call.keywords}
+            kws = call_keywords(ctx, f2, call)
             n += 1
             ctx.ob(R, f2, call, kws.get("sasl_plain_username") == "self._sasl_plain_username" and kws.get("sasl_plain_password") == "self._sasl_plain_password",
                    f"{f2.name}: create_conn is not given the stored credentials", text="credentials-passed:" + f2.name)
